@@ -1,6 +1,6 @@
 # pylint: disable=too-many-lines,redefined-outer-name,redefined-builtin
 
-from collections.abc import Callable, Iterable, Mapping
+from collections.abc import Callable, Iterable, Iterator, Mapping
 from typing import (
     Any,
     TypeVar,
@@ -378,9 +378,32 @@ def for_in(
         sequences.
     """
 
+    def _failed(ex: Exception) -> Observable[_T2]:
+        # fails inside subscribe(), as concat does for any other exception of the
+        # iterable (a throw() would only be queued on the subscribe-time scheduler)
+        def subscribe(
+            observer: abc.ObserverBase[_T2], scheduler: abc.SchedulerBase | None = None
+        ) -> abc.DisposableBase:
+            from .disposable import Disposable
+
+            observer.on_error(ex)
+            return Disposable()
+
+        return Observable(subscribe)
+
     def factory(_: abc.SchedulerBase) -> Observable[_T2]:
-        mapped: Iterable[Observable[_T2]] = map(mapper, values)
-        return concat_with_iterable(mapped)
+        def mapped() -> Iterator[Observable[_T2]]:
+            # not map(mapper, values): a StopIteration raised by the user's mapper would
+            # come out of next() and be read by concat as "no more sources"
+            for value in values:
+                try:
+                    source = mapper(value)
+                except Exception as ex:  # pylint: disable=broad-except
+                    yield _failed(ex)
+                    return
+                yield source
+
+        return concat_with_iterable(mapped())
 
     return defer(factory)
 
